@@ -206,6 +206,11 @@ class Interp:
             return C(ts.pop()) if len(ts) == 1 else K("bool")
         if isinstance(e, (ast.ListComp, ast.GeneratorExp)):
             return K("list", tag=("comp", norm(e)))
+        if isinstance(e, ast.UnaryOp) and isinstance(e.op, (ast.USub, ast.UAdd)):
+            v = self.ev(e.operand, env)
+            if isinstance(v, C) and isinstance(v.v, (int, float)) and not isinstance(v.v, bool):
+                return C(-v.v if isinstance(e.op, ast.USub) else v.v)
+            return TOP
         return TOP
 
     def call(self, e, env):
